@@ -34,6 +34,16 @@ def check(tier, seed, t0):
     os.remove(cases)
     res["cases"] = n
     runs.append(res)
+    # operands with 10 - 50 segments (the prepared geometry's segment R-tree has several levels): every ordered pair, 7 prepared forms
+    bres, bn, bmm, bsumm = vf.gen_and_replay("C17_big", "Gen_Relate", dict(N=10, Profile="big", Stride=2 if tier == "quick" else 1,
+                                                                           Offset=seed % 2 if tier == "quick" else 0, Emit="relate"),
+                                             ["C17"], seed, invariants=["OracleSane", "UniverseOK"], timeout=1500)
+    mism += bmm
+    vf.merge_counts(passc, bsumm["pass"]); vf.merge_counts(failc, bsumm["fail"])
+    nontriv += relate_common.nontrivial_relate(bres["cases_path"])
+    os.remove(bres["cases_path"])
+    n += bn
+    runs.append(bres)
     # recorded histories
     nev = 3000 if tier == "quick" else 30000
     trace = os.path.join(vf.WORK, "C17_trace.ndjson")
